@@ -54,7 +54,7 @@ LEVEL_NOTE = "trusts torch autograd on closed forms and torch.linalg.matrix_exp;
 TECHNIQUE = "Hypothesis property-based testing: differentiable closed-form reference model (first and second order), exactness classes, convergence-rate oracle"
 WALL = {"quick": 400, "thorough": 2400}
 
-AVOID_DERIVED_PARAMS = True      # see ASSUMPTIONS; flip when the C09 repair of solve_ivp's non-recording backward has landed
+AVOID_DERIVED_PARAMS = True      # derived-from-another-supplied-tensor layouts are covered by C09 (the exact-chain oracle needs prescribed coefficient values, which such recipes cannot realise)
 DT = R.DT
 EPS = R.EPS
 SPAN = {"short": 1e-3, "unit": 1.0, "long": 30.0}
@@ -449,7 +449,6 @@ def run_adaptive(case):
     if not wrt:
         return discard("nothing_to_differentiate", labels)
     Y = float(exact.detach().abs().max())
-    sc = 1.0 / span          # gradients w.r.t. times scale like the rate ~ LT/span
 
     def tol_fn(order, G, s1, s2):
         Z = 1.0 + Y + G
@@ -613,7 +612,7 @@ def fixed_conv_st(tier):
 
 def tasks(tier):
     return [
-        Task("exact_chain", strategy=exact_chain_st(tier), run=run_exact_chain, examples={"quick": 900, "thorough": 14000}),
-        Task("adaptive", strategy=adaptive_st(tier), run=run_adaptive, examples={"quick": 160, "thorough": 2500}),
-        Task("fixed_conv", strategy=fixed_conv_st(tier), run=run_fixed_conv, examples={"quick": 120, "thorough": 2000}),
+        Task("exact_chain", strategy=exact_chain_st(tier), run=run_exact_chain, examples={"quick": 1400, "thorough": 14000}),
+        Task("adaptive", strategy=adaptive_st(tier), run=run_adaptive, examples={"quick": 240, "thorough": 2000}),
+        Task("fixed_conv", strategy=fixed_conv_st(tier), run=run_fixed_conv, examples={"quick": 180, "thorough": 1500}),
     ]
